@@ -599,6 +599,14 @@ class ExprMixin:
             b = RESP_HAS(container.term, self.as_u_term(item, st))
             st.trace.append(Event('read', 'respdict.__contains__', container, (item,), {}, b, line, st.held))
             return b
+        elif isinstance(container, str) or (is_sym(container) and z3.is_string(container)):
+            # substring test on strings
+            if isinstance(container, str) and isinstance(item_u, str):
+                return item_u in container
+            if isinstance(item_u, str) or (is_sym(item_u) and z3.is_string(item_u)):
+                return z3.Contains(z3.StringVal(container) if isinstance(container, str) else container,
+                                   z3.StringVal(item_u) if isinstance(item_u, str) else item_u)
+            raise EngineError(f'in on str with a {type(item_u).__name__} item at line {line}')
         else:
             raise EngineError(f'in on {type(container).__name__} at line {line}')
         if is_sym(item_u) and z3.is_string(item_u):
